@@ -80,6 +80,9 @@ pub fn refactor_lib_opts(rng: &mut Rng, tier: Tier, subdirs: bool, cell_links: b
     o.profile.wiki_in_section_headings = true;
     o.self_links = false;
     o.crlf = false;
+    // attachments, anchors, other schemes: a refactoring or a rename moves text between notes and directories and must
+    // leave what is not a note reference as written
+    o.foreign = true;
     let lib = libgen::gen_lib(rng, &o);
     // start from formatted text: results of refactorings are themselves formatted
     export_lib(&lib.texts, "")
